@@ -43,9 +43,10 @@ MUTATING = frozenset(['mkdir', 'open-w', 'write', 'close-w', 'unlink',
 
 class SimClock(object):
     """integer seconds plus a strictly increasing nanosecond tiebreak"""
-    def __init__(self, start=1700000000):
+    def __init__(self, start=1700000000, slot=0):
         self.now = start
         self.tick = 0
+        self.slot = slot % 8      # stamps made by different processes never coincide
         self.slept = 0.0
         self.elapsed = 0
 
@@ -59,7 +60,7 @@ class SimClock(object):
         # 1 microsecond per tick: importlib's FileFinder compares directory
         # mtimes as floats (~240 ns resolution at today's epoch)
         self.tick += 1
-        return self.now * 1000000000 + (self.tick % 1000000) * 1000
+        return self.now * 1000000000 + ((self.tick * 8 + self.slot) % 1000000) * 1000
 
 
 class CrashNow(BaseException):
